@@ -9,6 +9,7 @@ CONSTANTS
   RuleN = 10
   HistN = 0
   CoefN = 4
+  QHistN = 0
   EqN = 4
 INIT Init
 NEXT Next
